@@ -269,8 +269,33 @@ def run(chk):
         return out
 
     def error_reaches_caller(b, fe, cb, closers):
-        if common.result_checked(b, fe):
-            return True, "%s: the enumeration's ControlFlow is inspected before %s" % (fe.loc, closers[0].callee.get("name"))
+        # (A) the enumeration's ControlFlow decides whether the structure is closed: a switch on it (match / `?` / is_break() /
+        # is_continue()) between the enumeration and the closing call has an outcome from which no closing call is reachable
+        if fe.dest is not None and "p" not in fe.dest:
+            al = set(b.value_aliases(fe.dest["l"])) | {fe.dest["l"]}
+
+            def from_flow(o, d=0):
+                if d > 6:
+                    return False
+                o2, _ = mir.norm_bool(o)
+                if o2[0] == "discr":
+                    return from_flow(o2[1], d + 1)
+                if o2[0] == "local":
+                    return o2[1] in al
+                if o2[0] == "call":
+                    if o2[1].bb == fe.bb:
+                        return True
+                    if o2[1].callee.get("name") in ("is_break", "is_continue", "branch", "break_value", "is_some", "is_none") and o2[1].args:
+                        return from_flow(mir.o_root(b.origin(o2[1].args[0])), d + 1)
+                if o2[0] in ("field", "downcast", "ref", "deref", "copy", "cast"):
+                    return from_flow(o2[1], d + 1)
+                return False
+            for i2, t in b.switches():
+                if i2 not in b.reachable_from(fe.bb) or not from_flow(b.switch_origin(i2)):
+                    continue
+                tgts = {n for v, n in t["targets"]} | {t["otherwise"]}
+                if any(not ({c.bb for c in closers} & set(b.reachable_from(n))) for n in tgts):
+                    return True, "%s: the enumeration's ControlFlow is inspected and one outcome skips %s" % (fe.loc, closers[0].callee.get("name"))
         clos_def = [st2 for bb2, j2, st2 in b.statements(normal_only=True)
                     if st2["k"] == "assign" and st2["rv"]["k"] == "agg" and st2["rv"].get("def") == cb.key]
         for st_bb, j, st in cb.statements(normal_only=True):
